@@ -1,6 +1,7 @@
 package main
 
 import (
+	"verifharness/mp4synth"
 	"encoding/hex"
 	"encoding/json"
 	"os"
@@ -102,6 +103,11 @@ func runC09(ctx *Ctx) error {
 			p = mutateBytes(r, p)
 		}
 		addC08Case(ctx, c08Input{hex.EncodeToString(p), m, false, "hostile-tables", r.Chance(0.2)})
+	}
+	// systematic hostile tables on small fixed layouts: every entry/field of stsc and stts set to each odd
+	// value, every odd (first chunk, samples per chunk) pair appended, every truncation of stsz / stco
+	for _, in := range systematicTables() {
+		addC08Case(ctx, in)
 	}
 	// named decoder cases: zero timescale, zero-reading sensor element, empty and moov-less files are covered by D15/D12/D21 demos
 	{
@@ -207,4 +213,89 @@ func runC09(ctx *Ctx) error {
 		}
 	}
 	return nil
+}
+
+func systematicTables() []c08Input {
+	var out []c08Input
+	payload := func(n int) ([]byte, []uint32, []uint64) {
+		r := &Rng{s: 777}
+		area := []byte{0xde, 0xad, 0xbe, 0xef}
+		var sizes []uint32
+		var offs []uint64
+		for i := 0; i < n; i++ {
+			p := sensorPayload(r)
+			offs = append(offs, uint64(len(area)))
+			sizes = append(sizes, uint32(len(p)))
+			area = append(area, p...)
+		}
+		return area, sizes, offs
+	}
+	weird := []uint32{0, 1, 2, 3, 4, 255, 0xffffffff}
+	add := func(area []byte, t mp4synth.Tables, kind string) {
+		out = append(out, c08Input{hex.EncodeToString(area), t, false, "hostile-" + kind, false})
+	}
+	clone := func(t mp4synth.Tables) mp4synth.Tables {
+		c := t
+		c.Stsc = append([][2]uint32{}, t.Stsc...)
+		c.Stts = append([][2]uint32{}, t.Stts...)
+		c.Sizes = append([]uint32{}, t.Sizes...)
+		c.Offsets = append([]uint64{}, t.Offsets...)
+		return c
+	}
+	for _, layout := range []int{0, 1} {
+		area, sizes, offs := payload(3)
+		base := mp4synth.Tables{Stsc: [][2]uint32{{1, 1}}, Stts: [][2]uint32{{3, 1000}}, NSamples: 3, Sizes: sizes, Offsets: offs, Timescale: 1000}
+		if layout == 1 {
+			// two samples in the first chunk, one in the second
+			base.Stsc = [][2]uint32{{1, 2}, {2, 1}}
+			base.Offsets = []uint64{offs[0], offs[2]}
+			base.Stts = [][2]uint32{{1, 500}, {2, 700}}
+		}
+		for i := range base.Stsc {
+			for f := 0; f < 2; f++ {
+				for _, w := range weird {
+					t := clone(base)
+					t.Stsc[i][f] = w
+					add(area, t, "stsc-field")
+				}
+			}
+		}
+		for _, w1 := range weird {
+			for _, w2 := range weird {
+				t := clone(base)
+				t.Stsc = append(t.Stsc, [2]uint32{w1, w2})
+				add(area, t, "stsc-appended")
+				if len(base.Offsets) > 1 {
+					t2 := clone(t)
+					t2.Offsets = t2.Offsets[:1] // fewer chunk offsets than the entries need: samples left when they run out
+					add(area, t2, "stsc-appended-short-stco")
+				}
+			}
+		}
+		for i := range base.Stts {
+			for f := 0; f < 2; f++ {
+				for _, w := range weird {
+					t := clone(base)
+					t.Stts[i][f] = w
+					add(area, t, "stts-field")
+				}
+			}
+		}
+		for n := 0; n < len(base.Sizes); n++ {
+			t := clone(base)
+			t.Sizes = t.Sizes[:n]
+			add(area, t, "stsz-short")
+		}
+		for n := 0; n < len(base.Offsets); n++ {
+			t := clone(base)
+			t.Offsets = t.Offsets[:n]
+			add(area, t, "stco-short")
+		}
+		for _, ns := range weird {
+			t := clone(base)
+			t.NSamples = ns
+			add(area, t, "sample-count")
+		}
+	}
+	return out
 }
